@@ -19,6 +19,10 @@ def rl_elem(dt, specials=True):
         if specials:
             return st.one_of(base, st.sampled_from([0.0, -0.0, float("inf"), float("-inf"), float("nan")]))
         return base
+    if dt in ("float32", "float64") and specials:
+        # besides small dyadic values and the specials: pairs of distinct values closer than any sensible tolerance
+        near = [1.0, 1.0 + 2.0**-20, 0.0, 1e-9, 1e5, 100001.0, -3.0, -3.0 - 2.0**-20] if dt == "float32" else [1.0, 1.0 + 1e-9, 0.0, 1e-9, 1e5, 100000.00001, -3.0, -3.000000001]
+        return st.one_of(gen.elem(dt, specials=specials), gen.elem(dt, specials=specials), st.sampled_from(near))
     return gen.elem(dt, specials=specials)
 
 
